@@ -365,3 +365,105 @@ def fixed_block():
                     for v2 in (False, True):
                         out.append(_one_column_file(leaf, bv, optional, "dict", v2, minw=0))
     return out
+
+
+# ---------------------------------------------------------------------------------------------
+# wave 4: run-structure lattice entry "ONE RLE run covering the page" x every index width 1..32 (deterministic)
+
+def constant_block():
+    """-> [(lfile, table)]: dictionary-encoded pages whose indices are a single RLE run (all values equal; what parquet-mr / arrow write
+    for a page with one distinct value) for every index width 1..32, the repeated index with its HIGH bytes set where the width allows
+    (300 = 0x012C, 70000 = 0x011170), run exactly as long as the page or longer, v1 / v2, required / optional with NULLs, INT64 and UTF8"""
+    out = []
+    for w in range(1, 33):
+        for v2 in (False, True):
+            for optional in (False, True):
+                big = w in (17, 24, 32) and v2 == optional          # a 3-byte repeated index needs a dictionary of 70001 entries: six files
+                dsize = 70001 if big else (400 if w >= 9 else (1 << w))
+                idx = 70000 if big else (300 if w >= 9 else (1 << w) - 1)
+                text = (w % 2 == 1) and not big
+                if text:
+                    leaf = {"name": "k_utf8_w%d" % w, "type": 6, "tlen": 0, "optional": optional, "conv": 0, "logical": None,
+                            "scale": None, "precision": None, "tag": "utf8"}
+                    dvals = [{"b": ("v%05d" % i).encode().hex()} for i in range(dsize)]
+                else:
+                    leaf = {"name": "k_int64_w%d" % w, "type": 2, "tlen": 0, "optional": optional, "conv": None, "logical": None,
+                            "scale": None, "precision": None, "tag": "int64"}
+                    dvals = [(i * 1000003 + 7) & M64 for i in range(dsize)]
+                n = [5, 8, 9, 40][(w + v2) % 4]
+                nulls = [optional and (i % 4 == 1) for i in range(n)]
+                k = sum(1 for x in nulls if not x)
+                levels = [0 if x else 1 for x in nulls]
+                defruns = []
+                if optional:
+                    i = 0
+                    while i < n:                    # plain RLE runs of the levels
+                        j = i
+                        while j < n and levels[j] == levels[i]:
+                            j += 1
+                        defruns.append(["r", j - i, levels[i]])
+                        i = j
+                run_len = k + (7 if w % 5 == 0 else 0)        # an RLE run may be longer than the page needs
+                items = [{"dict": 0, "vals": dvals},
+                         {"v2": v2, "n": n, "def": defruns, "store": ["dictidx", 8 if v2 else 2, w, [["r", run_len, idx]]],
+                          "iscomp": None, "trail": ""}]
+                lf = {"leaves": [leaf], "rgs": [[{"codec": 0, "stats": True, "items": items}]], "created_by": "parquet-mr version 1.12.3"}
+                table = {leaf["name"]: [None if x else dvals[idx] for x in nulls]}
+                out.append((lf, table))
+    return out
+
+
+# ---------------------------------------------------------------------------------------------
+# wave 4: BIG pages (>= 64 KiB uncompressed): a dictionary page followed by data pages, each codec - buffers a reader may recycle
+
+def big_page_file(rng, codec, v2, text, npages=2):
+    """dictionary page of about 96 KiB, then `npages` data pages of about 80 KiB each (PLAIN fallback page last), one row group"""
+    if text:
+        leaf = {"name": "big_utf8", "type": 6, "tlen": 0, "optional": False, "conv": 0, "logical": None, "scale": None, "precision": None, "tag": "utf8"}
+        dvals = [{"b": ("label-%06d-%s" % (i, "x" * 12)).encode().hex()} for i in range(3200)]       # 3200 * (4 + 25) = 92.8 KB
+        rows = 40000                                                                                    # 16-bit indices: 80 KB
+        w = 16
+    else:
+        leaf = {"name": "big_int64", "type": 2, "tlen": 0, "optional": False, "conv": None, "logical": None, "scale": None, "precision": None, "tag": "int64"}
+        dvals = [((i * 2654435761) ^ (i << 40)) & M64 for i in range(12000)]                            # 96 KB
+        rows = 40000
+        w = 16
+    items = [{"dict": 0, "vals": dvals}]
+    table = []
+    for p in range(npages):
+        ix = [rng.randrange(len(dvals)) for _ in range(rows)]
+        items.append({"v2": v2, "n": rows, "def": [], "store": ["dictidx", 8 if v2 else 2, w, [["b", ix]]], "iscomp": None, "trail": ""})
+        table += [dvals[i] for i in ix]
+    if not text:
+        pv = [dvals[rng.randrange(len(dvals))] for _ in range(9000)]                                     # PLAIN page of 72 KB
+        items.append({"v2": v2, "n": len(pv), "def": [], "store": ["plain", pv], "iscomp": None, "trail": ""})
+        table += pv
+    lf = {"leaves": [leaf], "rgs": [[{"codec": codec, "stats": True, "items": items}]], "created_by": "parquet-cpp-arrow version 14.0.2"}
+    return lf, {leaf["name"]: table}
+
+
+def high_index_block():
+    """-> [(lfile, table, categories?)]: files NAMING fastparquet whose dictionary has more entries than a SIGNED index of the page's width
+    can address (129..256 entries at width 8, 32769.. at width 16) in exactly the layout fastparquet writes (one bit-packed run): the
+    raw-codes shortcut of the reader passes its layout check and must still read the indices as unsigned"""
+    out = []
+    for w, dsize in ((8, 200), (8, 256), (16, 40000)):
+        for v2 in (False, True):
+            for optional in (False, True):
+                for cats in ((False, True) if dsize < 32768 else (False,)):      # (categories=[col] allocates int16 codes: refused above 32767 labels)
+                    leaf = {"name": "h_int64_w%d" % w, "type": 2, "tlen": 0, "optional": optional, "conv": None, "logical": None,
+                            "scale": None, "precision": None, "tag": "int64"}
+                    dvals = [(i * 1000003 + 11) & M64 for i in range(dsize)]
+                    n = 16
+                    nulls = [optional and i % 5 == 2 for i in range(n)]
+                    ix = [(dsize - 1 - 3 * i) if i % 2 == 0 else i for i in range(sum(1 for x in nulls if not x))]
+                    levels = [0 if x else 1 for x in nulls]
+                    items = [{"dict": 0, "vals": dvals},
+                             {"v2": v2, "n": n, "def": ([["b", levels]] if optional else []), "store": ["dictidx", 8 if v2 else 2, w, [["b", ix]]],
+                              "iscomp": None, "trail": ""}]
+                    lf = {"leaves": [leaf], "rgs": [[{"codec": 0, "stats": True, "items": items}]],
+                          "created_by": "fastparquet-python version 2023.4.0 (build 0)"}
+                    it = iter(ix)
+                    table = {leaf["name"]: [None if x else dvals[next(it)] for x in nulls]}
+                    out.append((lf, table, cats))
+    return out
